@@ -124,12 +124,20 @@ class Renderer:
         L.append("  private" if sh.get("private_default") else "  public")
         ntypes = sh.get("types", 0)
         procs = [] if sh.get("noprocs") else [f"p{i}_{j}" for j in range(self.rng.choice([1, 2, 3]))]
+        # explicit accessibility of the module procedures: a private one may be the target of a binding
+        proc_perm = {p: self.rng.choice([None, None, "public", "private"]) for p in procs}
+        for p, pm in proc_perm.items():
+            if pm:
+                L.append(f"  {pm} :: {p}")
         for t in range(ntypes):
             tn = f"t{i}_{t}_t"
             ext = f", extends(t{i}_{t - 1}_t)" if t > 0 and self.rng.random() < 0.6 else ""
             perm = self.rng.choice(["", ", public", ", private"])
             L.append(f"  type{perm}{ext} :: {tn}")
             L += _doc("    ", self.u(), self.pick())
+            if procs and sh.get("links"):
+                # from the type's own docstring a binding and its (possibly private) target are in scope
+                L.append(f"    !! binding [[b{t}]] bound to [[b{t}:{procs[0]}]]")
             L.append(f"    integer :: c{t}a = 0")
             L += _doc("      ", self.u(), self.pick(1))
             if t > 0:
@@ -149,7 +157,12 @@ class Renderer:
             L.append(f"  end type {tn}")
             self.refs += [tn, f"{tn}(type)", f"{tn}:c{t}a", f"{name}:{tn}"]
             if procs:
-                self.refs.append(f"{tn}:b{t}")
+                # binding, and binding:target (the target is found among the binding's children)
+                self.refs += [f"{tn}:b{t}", f"b{t}:{procs[0]}"]
+            if t == 0 and procs and self.rng.random() < 0.6:
+                # a constructor: generic interface with the name of the type
+                L += [f"  interface {tn}", f"    module procedure mk{i}", "  end interface"]
+                self._constructor = (i, tn)
         if sh.get("absint") and i == 0:
             L += ["  abstract interface", f"    subroutine absint{i}(x)"]
             L += _doc("      ", self.u(), self.pick())
@@ -213,6 +226,10 @@ class Renderer:
                            namelist=bool(sh.get("namelist")) and j == 0,
                            perm=self.rng.choice([None, None, "public", "private"]), module=name)
             self.refs += [p, f"{p}(proc)", f"{name}:{p}"]
+        if getattr(self, "_constructor", (None,))[0] == i:
+            tn = self._constructor[1]
+            L += [f"  function mk{i}(n) result(s)", f"    !! zq{self.u()}w constructor", "    integer, intent(in) :: n",
+                  f"    type({tn}) :: s", f"    s%c0a = n", f"  end function mk{i}"]
         if hub and i == 0:
             L += ["  subroutine hubp(a)", f"    !! zq{self.u()}w the hub procedure", "    integer, intent(in) :: a",
                   "    integer :: hl", "    hl = a", "  end subroutine hubp"]
@@ -235,10 +252,12 @@ class Renderer:
     def proc(self, name, ind, calls=(), typ=None, namelist=False, perm=None, module=None, internal=True):
         fn = self.rng.random() < 0.4
         L = []
+        dummy = self.rng.random() < 0.3          # a dummy procedure declared through an interface block
+        arglist = "a, fdum" if dummy else "a"
         if fn:
-            L.append(f"{ind}function {name}(a) result(r)")
+            L.append(f"{ind}function {name}({arglist}) result(r)")
         else:
-            L.append(f"{ind}subroutine {name}(a)")
+            L.append(f"{ind}subroutine {name}({arglist})")
         i2 = ind + "  "
         local_type = internal and self.rng.random() < 0.5
         if local_type and self.rng.random() < 0.4:
@@ -256,6 +275,10 @@ class Renderer:
         if typ:
             L.append(f"{i2}type({typ}) :: loc")
             L += _doc(i2 + "  ", self.u(), self.pick(1))
+        if dummy:
+            L += [f"{i2}interface", f"{i2}  function fdum(y) result(w)", f"{i2}    !! zq{self.u()}w dummy procedure",
+                  f"{i2}    integer, intent(in) :: y", f"{i2}    integer :: w", f"{i2}  end function fdum",
+                  f"{i2}end interface"]
         L.append(f"{i2}integer :: nlv")
         if namelist:
             L.append(f"{i2}namelist /nl_{name}/ nlv")
@@ -264,7 +287,10 @@ class Renderer:
         if local_type:
             # a derived type declared inside the procedure; every other one has a CONTAINS part with
             # bindings to procedures of the host module and a generic binding
-            L += [f"{i2}type :: inner_{name}_t", f"{i2}  !! zq{self.u()}w"]
+            L += [f"{i2}type :: inner_{name}_t"]
+            if self.rng.random() < 0.5:
+                L += [f"{i2}  !! summary: brief zq{self.u()}w"]
+            L += [f"{i2}  !! zq{self.u()}w long description"]
             L += [f"{i2}  !! see [[{r}]] here" for r in self.pick(1)]
             L += [f"{i2}  integer :: z"]
             targets = [c for c in calls] or ([name] if module else [])
